@@ -1,6 +1,7 @@
 import MqttVerif.Codec.LemmasKinds
 import MqttVerif.Codec.LemmasRTAll
 import MqttVerif.Codec.LemmasSize
+import MqttVerif.Codec.LemmasView
 /-!
 # C04 — decoder totality; accepted input canonical and valid
 
@@ -19,9 +20,9 @@ open MqttVerif.Codec
 /-! ## totality of the primitives — every `List Nat` -/
 
 /-- `VariableByteInteger::decode_stream`: reads at most 4 bytes, never more than the buffer holds;
-    the value is in range and its canonical encoding is not longer than what was read. -/
+    the value is in range and exactly its canonical encoding was read (non-minimal encodings are rejected). -/
 theorem C04_vbi_total (buf : List Nat) (v c : Nat) (h : vbiDec buf = .ok v c) :
-    v ≤ vbiMax ∧ vbiSize v ≤ c ∧ c ≤ buf.length ∧ c ≤ 4 := vbiDec_ok h
+    v ≤ vbiMax ∧ vbiSize v = c ∧ c ≤ buf.length ∧ c ≤ 4 := vbiDec_ok h
 
 /-- `MqttString::decode`: no panic; consumed = 2 + length ≤ input; the content is valid UTF-8
     (what `from_utf8_unchecked` in `as_str` relies on). -/
@@ -40,10 +41,10 @@ theorem C04_subentry_total (data : List Nat) :
   ⟨(SubEntry.parse_sat data).noPanic, (SubEntry.parse_sat data).post⟩
 
 /-- `Property::parse`: no panic; at least one byte and at most the input consumed; the property
-    re-encodes to at most what was consumed (a non-minimal VBI value is canonicalised). -/
+    re-encodes to exactly what was consumed. -/
 theorem C04_property_total (bytes : List Nat) :
     (∀ s, Property.parse bytes ≠ .panic s) ∧
-    (∀ p c, Property.parse bytes = .ok p c → p.size ≤ c ∧ c ≤ bytes.length ∧ 1 ≤ c) :=
+    (∀ p c, Property.parse bytes = .ok p c → p.size = c ∧ c ≤ bytes.length ∧ 1 ≤ c) :=
   ⟨(Property.parse_sat bytes).noPanic, (Property.parse_sat bytes).post⟩
 
 /-- `Properties::parse`: no panic (in particular the `while cursor < props_end` loop never
@@ -51,7 +52,7 @@ theorem C04_property_total (bytes : List Nat) :
 theorem C04_properties_total (data : List Nat) :
     (∀ s, Props.parse data ≠ .panic s) ∧
     (∀ ps c, Props.parse data = .ok ps c →
-        vbiSize ps.size + ps.size ≤ c ∧ c ≤ data.length ∧ ps.size ≤ vbiMax ∧ 1 ≤ c) :=
+        vbiSize ps.size + ps.size = c ∧ c ≤ data.length ∧ ps.size ≤ vbiMax ∧ 1 ≤ c) :=
   ⟨(Props.parse_sat data).noPanic, (Props.parse_sat data).post⟩
 
 /-! ## totality of the 29 packet parsers -/
@@ -81,14 +82,50 @@ theorem C04_no_panic_unbounded (data : List Nat) (k : AckKind) (pw : Nat) (hpw :
   exact ⟨(Connack3.parse_sat data).noPanic, (Ack3.parse_sat k pw data h1).noPanic,
     (Unsuback3.parse_sat pw data h2).noPanic, (Empty.parse_sat data).noPanic⟩
 
-/-! ## accepted input: size and re-parse
+/-! ## accepted input: size, re-parse, builder rules -/
 
-Full-strength statements (false of the pinned code), witnesses proved by `decide`. -/
+/-- **every accepted packet reports the length of its own serialisation** — all 29 parsers, both
+    id widths, every input, no well-formedness assumed.  (False on the tree the design phase
+    pinned: six v5.0 parsers took `remaining_length` from the consumed byte count and accepted
+    non-minimal variable-byte integers; `decode_stream` rejects those since b1b35e9.) -/
+theorem C04_size_eq (version pw fh : Nat) (body : List Nat) (p : Packet) (c : Nat) (hpw : pw = 2 ∨ pw = 4)
+    (h : Packet.parse version pw fh body = some (.ok p c)) : p.size = (p.encode pw).length :=
+  Packet.size_ok version pw fh body p c hpw h
 
-/-- every accepted packet reports the length of its own serialisation -/
-def C04_size_eq_full : Prop :=
-  ∀ version pw fh body p c, (pw = 2 ∨ pw = 4) → Packet.parse version pw fh body = some (.ok p c) →
-    p.size = (p.encode pw).length
+example : (4 = 2 ∨ 4 = 4) ∧
+    Packet.parse 5 4 0x34 [0, 1, 0x74, 0, 1, 0, 0] = some (.ok (.publish5 ⟨0x34, 8, [0x74], some 65536, 0, [], []⟩) 7) := by
+  decide
+
+def rejected : Option (PRes Packet) → Bool
+  | some (.err _) => true
+  | _ => false
+
+/-- the former witnesses of `size() ≠ |bytes|` (non-minimal property length / Subscription
+    Identifier in CONNACK, CONNECT, SUBACK, UNSUBACK, SUBSCRIBE, UNSUBSCRIBE v5.0) are rejected -/
+theorem C04_nonminimal_vbi_rejected :
+    rejected (Packet.parse 5 2 0x20 [0x00, 0x00, 0x80, 0x00]) = true ∧
+    rejected (Packet.parse 5 2 0x10 [0, 4, 77, 81, 84, 84, 5, 2, 0, 60, 0x80, 0x00, 0, 1, 0x61]) = true ∧
+    rejected (Packet.parse 5 2 0x90 [0x00, 0x01, 0x80, 0x00, 0x00]) = true ∧
+    rejected (Packet.parse 5 2 0xb0 [0x00, 0x01, 0x80, 0x00, 0x00]) = true ∧
+    rejected (Packet.parse 5 2 0x82 [0x00, 0x01, 0x03, 0x0b, 0x81, 0x00, 0x00, 0x01, 0x61, 0x00]) = true ∧
+    rejected (Packet.parse 5 2 0xa2 [0x00, 0x01, 0x80, 0x00, 0x00, 0x01, 0x61]) = true := by decide
+
+/-- the former witnesses of accepted-but-unbuildable packets are rejected: packet id 0
+    (SUBSCRIBE, SUBACK, UNSUBSCRIBE, UNSUBACK, PUBLISH), CONNACK reserved flag bits, CONNECT
+    reserved bit / Will QoS 3 / Will Retain without Will, wildcard and empty (v3.1.1) topics -/
+theorem C04_unbuildable_rejected :
+    rejected (Packet.parse 4 2 0x82 [0, 0, 0, 1, 0x61, 0]) = true ∧
+    rejected (Packet.parse 5 2 0x90 [0, 0, 0, 0]) = true ∧
+    rejected (Packet.parse 4 2 0xa2 [0, 0, 0, 1, 0x61]) = true ∧
+    rejected (Packet.parse 4 2 0xb0 [0, 0]) = true ∧
+    rejected (Packet.parse 4 2 0x32 [0, 1, 0x74, 0, 0]) = true ∧
+    rejected (Packet.parse 5 2 0x20 [0xfe, 0, 0]) = true ∧
+    rejected (Packet.parse 4 2 0x10 [0, 4, 77, 81, 84, 84, 4, 1, 0, 60, 0, 0]) = true ∧
+    rejected (Packet.parse 4 2 0x10 [0, 4, 77, 81, 84, 84, 4, 0x1e, 0, 60, 0, 0, 0, 1, 0x74, 0, 0]) = true ∧
+    rejected (Packet.parse 5 2 0x10 [0, 4, 77, 81, 84, 84, 5, 0x22, 0, 60, 0, 0, 0]) = true ∧
+    rejected (Packet.parse 4 2 0x30 [0, 1, 0x23]) = true ∧
+    rejected (Packet.parse 5 2 0x30 [0, 1, 0x2b, 0]) = true ∧
+    rejected (Packet.parse 4 2 0x30 [0, 0]) = true := by decide
 
 /-- re-parsing the packet's own serialisation (fixed header byte, Remaining Length skipped)
     yields the same packet and consumes the whole body -/
@@ -97,70 +134,18 @@ def reparses (version pw : Nat) (p : Packet) : Bool :=
   | some (fh', _, body') => decide (Packet.parse version pw fh' body' = some (.ok p body'.length))
   | none => false
 
-/-- every accepted packet re-parses from its own serialisation to itself -/
-def C04_reparse_full : Prop :=
-  ∀ version pw fh body p c, (pw = 2 ∨ pw = 4) → Packet.parse version pw fh body = some (.ok p c) →
-    reparses version pw p = true
-
 /-- every accepted packet satisfies the structural rules of its builder -/
 def C04_buildable_full : Prop :=
   ∀ version pw fh body p c, (pw = 2 ∨ pw = 4) → Packet.parse version pw fh body = some (.ok p c) →
     p.wf pw = true
 
-/-- CONNACK v5.0 with a two-byte property length `80 00`: `remaining_length := cursor` = 4,
-    `size()` = 6, five bytes serialised. -/
-theorem C04_size_eq_counterexample_connack : ¬ C04_size_eq_full := by
+/-- the one remaining deviation: a v5.0 PUBLISH with an empty topic name and no Topic Alias
+    property is accepted by the parser (the connection layer answers TopicAliasInvalid); the
+    builder rejects it.  Reported by the run as `C04 buildable.topic_nonempty@v5.publish`. -/
+theorem C04_buildable_counterexample_empty_topic : ¬ C04_buildable_full := by
   intro h
-  have := h 5 2 0x20 [0x00, 0x00, 0x80, 0x00] (.connack5 ⟨4, 0, 0, 0, []⟩) 4 (Or.inl rfl) (by decide)
+  have := h 5 2 0x30 [0, 0] (.publish5 ⟨0x30, 3, [], none, 0, [], []⟩) 2 (Or.inl rfl) (by decide)
   revert this; decide
-
-/-- SUBACK v5.0, `00 01 | 80 00 | 00` -/
-theorem C04_size_eq_counterexample_suback : ¬ C04_size_eq_full := by
-  intro h
-  have := h 5 2 0x90 [0x00, 0x01, 0x80, 0x00, 0x00] (.suback5 ⟨5, 1, 0, [], [0]⟩) 5 (Or.inl rfl) (by decide)
-  revert this; decide
-
-/-- SUBSCRIBE v5.0 with a non-minimal Subscription Identifier `0b 81 00` -/
-theorem C04_size_eq_counterexample_subscribe : ¬ C04_size_eq_full := by
-  intro h
-  have := h 5 2 0x82 [0x00, 0x01, 0x03, 0x0b, 0x81, 0x00, 0x00, 0x01, 0x61, 0x00]
-    (.subscribe5 ⟨10, 1, 2, [.vbi 11 1], [⟨[0x61], 0⟩]⟩) 10 (Or.inl rfl) (by decide)
-  revert this; decide
-
-/-- the same CONNACK does not re-parse to itself: its serialisation announces 4 body bytes
-    and carries 3 -/
-theorem C04_reparse_counterexample : ¬ C04_reparse_full := by
-  intro h
-  have := h 5 2 0x20 [0x00, 0x00, 0x80, 0x00] (.connack5 ⟨4, 0, 0, 0, []⟩) 4 (Or.inl rfl) (by decide)
-  revert this; decide
-
-/-- SUBSCRIBE v3.1.1 with packet identifier 0 is accepted; no builder produces it. -/
-theorem C04_buildable_counterexample_pid0 : ¬ C04_buildable_full := by
-  intro h
-  have := h 4 2 0x82 [0x00, 0x00, 0x00, 0x01, 0x61, 0x00] (.subscribe3 ⟨6, 0, [⟨[0x61], 0⟩]⟩) 6 (Or.inl rfl) (by decide)
-  revert this; decide
-
-/-- CONNECT v3.1.1 with the reserved flag bit set is accepted. -/
-theorem C04_buildable_counterexample_connect_reserved : ¬ C04_buildable_full := by
-  intro h
-  have := h 4 2 0x10 [0, 4, 77, 81, 84, 84, 4, 1, 0, 60, 0, 0] (.connect3 ⟨12, 1, 60, [], [], [], [], []⟩) 12
-    (Or.inl rfl) (by decide)
-  revert this; decide
-
-/-! ## what *is* true of accepted input
-
-The extra hypothesis is exactly the `buildable` predicate `Packet.wf` (decidable; evaluated as
-a monitor on every accepted packet of the lock-step run): an accepted packet that satisfies the
-structural rules and cached-length equations of its builder reports its true size and re-parses
-to itself.  The counterexamples above are precisely accepted packets violating `wf`
-(`remlen` check) — on the pinned tree the parsers of CONNECT, CONNACK, SUBSCRIBE, SUBACK,
-UNSUBSCRIBE, UNSUBACK v5.0 produce such packets from non-minimal variable-byte integers. -/
-
-theorem C04_size_eq_of_wf (version pw fh : Nat) (body : List Nat) (p : Packet) (c : Nat) (hpw : pw = 2 ∨ pw = 4)
-    (_h : Packet.parse version pw fh body = some (.ok p c)) (hwf : p.wf pw = true) :
-    p.size = (p.encode pw).length := by
-  obtain ⟨_, _, _, _, _, hs, _⟩ := Packet.roundTrips pw p hpw hwf
-  exact hs
 
 theorem version_of_parse (version pw fh : Nat) (body : List Nat) (p : Packet) (c : Nat) (hv : version = 4 ∨ version = 5)
     (h : Packet.parse version pw fh body = some (.ok p c)) : p.version = version := by
@@ -176,6 +161,8 @@ theorem version_of_parse (version pw fh : Nat) (body : List Nat) (p : Packet) (c
       | (injection h with h; obtain ⟨a, rfl⟩ := map_ok_inv h; rfl)
       | (exact absurd h (by simp))
 
+/-- an accepted packet that satisfies the builder rules re-parses from its own serialisation
+    to itself (C02_all) -/
 theorem C04_reparse_partial (version pw fh : Nat) (body : List Nat) (p : Packet) (c : Nat) (hpw : pw = 2 ∨ pw = 4)
     (hv : version = 4 ∨ version = 5)
     (h : Packet.parse version pw fh body = some (.ok p c)) (hwf : p.wf pw = true) :
@@ -190,35 +177,38 @@ example : (2 = 2 ∨ 2 = 4) ∧ (5 = 4 ∨ 5 = 5) ∧
     Packet.parse 5 2 0x40 [0x00, 0x01, 0x10] = some (.ok (.puback5 ⟨3, 1, some 16, 0, none⟩) 3) ∧
     Packet.wf 2 (.puback5 ⟨3, 1, some 16, 0, none⟩) = true := by decide
 
-/-- **`size()` of accepted input — the true partial theorem.**  For 23 of the 29 kinds (every
-    kind except CONNECT, CONNACK, SUBSCRIBE, SUBACK, UNSUBSCRIBE, UNSUBACK of v5.0 — the extra
-    hypothesis `sizeFromParts`), *every* accepted input, well-formed or not, yields a packet whose
-    `size()` is the length of its serialisation. -/
-theorem C04_size_eq_partial (version pw fh : Nat) (body : List Nat) (p : Packet) (c : Nat) (hpw : pw = 2 ∨ pw = 4)
-    (h : Packet.parse version pw fh body = some (.ok p c)) (hk : p.sizeFromParts = true) :
-    p.size = (p.encode pw).length := Packet.size_ok version pw fh body p c hpw h hk
+/-! ## builder rules enforced by the parsers; what L2 may assume of a parsed packet
 
-example : (4 = 2 ∨ 4 = 4) ∧
-    Packet.parse 5 4 0x34 [0, 1, 0x74, 0, 0, 0, 0] = some (.err .MalformedPacket) ∧
-    Packet.parse 5 4 0x34 [0, 1, 0x74, 0, 1, 0, 0] = some (.ok (.publish5 ⟨0x34, 8, [0x74], some 65536, 0, [], []⟩) 7) ∧
-    Packet.sizeFromParts (.publish5 ⟨0x34, 8, [0x74], some 65536, 0, [], []⟩) = true := by decide
+`view : Codec.Packet → Conn.Pkt` is the interface through which the connection model (L2) sees
+packets; the connection driver checks `view (parse frame)` against the descriptor the harness
+prints from the real packet for every received frame and every sent packet
+(`codec.view.<kind>.<field>`).  For input that consists of bytes: -/
 
-/-- the remaining three of the six kinds excluded by `sizeFromParts` are genuinely defective -/
-theorem C04_size_eq_counterexample_connect : ¬ C04_size_eq_full := by
-  intro h
-  have := h 5 2 0x10 [0, 4, 77, 81, 84, 84, 5, 2, 0, 60, 0x80, 0x00, 0, 1, 0x61]
-    (.connect5 ⟨15, 2, 60, 0, [], [0x61], 0, [], [], [], [], []⟩) 15 (Or.inl rfl) (by decide)
-  revert this; decide
+/-- every accepted frame: PUBLISH has QoS ≤ 2, a packet id iff QoS > 0, and `1 ≤ id ≤ 256^pw − 1`;
+    PUBACK … UNSUBACK carry an id in that range (packet identifier 0 is rejected by every
+    parser); Receive Maximum / Maximum Packet Size property values are non-zero;
+    `topic_name_extracted` is false. -/
+theorem C04_accepted_view_wf (version pw fh : Nat) (body : List Nat) (v : MqttVerif.Conn.Pkt)
+    (hb : ∀ b ∈ body, b < 256) (h : parseView version pw fh body = .ok v) : WfParsed pw v :=
+  parseView_wfParsed version pw fh body v hb h
 
-theorem C04_size_eq_counterexample_unsubscribe : ¬ C04_size_eq_full := by
-  intro h
-  have := h 5 2 0xa2 [0x00, 0x01, 0x80, 0x00, 0x00, 0x01, 0x61] (.unsubscribe5 ⟨7, 1, 0, [], [[0x61]]⟩) 7
-    (Or.inl rfl) (by decide)
-  revert this; decide
+example : (∀ b ∈ [0x00, 0x01, 0x74, 0x12, 0x34, 0x00], b < 256) ∧
+    (parseView 5 2 0x34 [0x00, 0x01, 0x74, 0x12, 0x34, 0x00]).toOption.map (·.pid) = some (some 0x1234) := by decide
 
-theorem C04_size_eq_counterexample_unsuback : ¬ C04_size_eq_full := by
-  intro h
-  have := h 5 2 0xb0 [0x00, 0x01, 0x80, 0x00, 0x00] (.unsuback5 ⟨5, 1, 0, [], [0]⟩) 5 (Or.inl rfl) (by decide)
-  revert this; decide
+/-- CONNACK v5.0: reserved acknowledge-flag bits are zero in every accepted packet -/
+theorem C04_accepted_connack5_flags (data : List Nat) (p : Connack5) (c : Nat) (h : Connack5.parse data = .ok p c) :
+    p.flags ≤ 1 := Connack5.parse_flags data p c h
+
+/-- CONNECT (both versions): reserved flag clear, Will QoS ≤ 2, no Will QoS / Retain without Will -/
+theorem C04_accepted_connect_flags (data : List Nat) :
+    (∀ p c, Connect3.parse data = .ok p c → ConnFlagsOk p.flags) ∧
+    (∀ p c, Connect5.parse data = .ok p c → ConnFlagsOk p.flags) :=
+  ⟨Connect3.parse_flags data, Connect5.parse_flags data⟩
+
+/-- PUBLISH: the topic name of an accepted packet is valid UTF-8 without `#` / `+`; v3.1.1: non-empty -/
+theorem C04_accepted_publish_topic (pw flags : Nat) (data : List Nat) :
+    (∀ p c, Publish3.parse pw flags data = .ok p c → noWildcard p.topic = true ∧ p.topic ≠ [] ∧ utf8Ok p.topic = true) ∧
+    (∀ p c, Publish5.parse pw flags data = .ok p c → noWildcard p.topic = true ∧ utf8Ok p.topic = true) :=
+  ⟨Publish3.parse_topic pw flags data, Publish5.parse_topic pw flags data⟩
 
 end MqttVerif.Props.C04
